@@ -16,5 +16,6 @@ except Exception as e:
 json.dump(m, open(p, "w"), indent=1)
 PY
 fi
-git -C /repo worktree remove --force "$WT" && rm -rf "$OUT"
+# (a change that could not be confirmed keeps its worktree and outputs for a second look; remove them by hand)
+[ $RC = 0 ] && git -C /repo worktree remove --force "$WT" && rm -rf "$OUT"
 exit $RC
